@@ -239,8 +239,8 @@ pub fn run(cfg: &Cfg) -> Report {
     }
     let mut rng = cfg.rng(131);
     let n = cfg.n(if miri { 40 } else { 6000 }, 400_000);
-    let gc = GenCfg { max_members: 6, max_depth: 4, comments: true, deep_comments: false, custom_refs: true };
-    let gc_deep = GenCfg { max_members: 4, max_depth: 3, comments: true, deep_comments: true, custom_refs: true };
+    let gc = GenCfg { max_members: 6, max_depth: 4, comments: true, deep_comments: false, custom_refs: true, trailing_blanks: false };
+    let gc_deep = GenCfg { max_members: 4, max_depth: 3, comments: true, deep_comments: true, custom_refs: true, trailing_blanks: false };
     for k in 0..n {
         // ---- positives
         let tree = gen_iface(&mut rng, &gc);
